@@ -9,7 +9,7 @@ import json, os, shutil, subprocess, sys, tempfile
 
 pid = sys.argv[1]
 name = sys.argv[2] if len(sys.argv) > 2 else pid
-src = "/tmp/wt/%s-out" % pid
+src = os.path.join(os.environ.get("SEED_SRC", "/tmp/wt"), "%s-out" % pid)
 verif = os.path.dirname(os.path.dirname(os.path.abspath(__file__)))
 clean = tempfile.mkdtemp(prefix="seed-clean-")
 pat = tempfile.mkdtemp(prefix="seed-pat-")
